@@ -628,7 +628,7 @@ func gen(o hreg.Opts, w *bufio.Writer) error {
 			emit("bits", "covers "+hexOf(ab)+" "+hexOf([]byte{byte(b)}))
 		}
 	}
-	nb := o.Pick(3000, 100000)
+	nb := o.Pick(10000, 100000)
 	for i := 0; i < nb; i++ {
 		var a, b []byte
 		n := rng.Intn(18)
@@ -671,7 +671,7 @@ func gen(o hreg.Opts, w *bufio.Writer) error {
 		}
 	}
 	// 3. random pool histories
-	nSeq := o.Pick(4000, 200000)
+	nSeq := o.Pick(12000, 200000)
 	for s := 0; s < nSeq; s++ {
 		fmt.Fprintln(w, "reset")
 		// committees of this sequence: (slot, index) -> members
